@@ -26,9 +26,10 @@ RULES = {
     "R5": "a supplied mapping is used and handed back verbatim by both encoders (shared with C01.R5)",
     "R6": "Screen.__init__ passes the supplied treatment / sample mapping to the encoders as existing_mapping; the mapping properties return what the encoders handed back",
     "R7": "the saved training and test screens are the two results of one hold-out split, saved as returned: nothing re-encodes (smooths, regenerates, combines) one half after the split",
+    "R9": "archives between the stages are lossless for the id universe: writer / reader key table of Screen and ExperimentSpace agree column by column, no lossy transformation on a mapping column (C02.R1 run here)",
     "R8": "the constructor keeps as its mappings exactly what the encoders returned (no cast of a mapping column on the way into self._X_mapping): a supplied mapping keeps naming the same samples and treatments through every rebuild",
 }
-MIN = {"R1": 12, "R2": 2, "R3": 5, "R4": 3, "R5": 4, "R6": 3, "R7": 1, "R8": 2}
+MIN = {"R9": 10, "R1": 12, "R2": 2, "R3": 5, "R4": 3, "R5": 4, "R6": 3, "R7": 1, "R8": 2}
 TRUSTED = ["python ast semantics", "numpy boolean indexing keeps row order", "call graph: typed resolution + name-CHA "
            "fallback (over-approximate); dynamic class lookup via introspection.get_class is assumed to yield "
            "subclasses of the declared base"]
@@ -350,7 +351,15 @@ def r8(ctx):
     common.stored_mappings_verbatim(ctx, "R8")
 
 
-RULE_FUNCS = [r1, r2, r3, r4, r5, r6, r7, r8]
+def r9(ctx):
+    """every stage of the lifecycle hands the screen to the next one through an archive: the ids stay what they were only if the writer stores
+    each mapping column as it is and the reader puts it back into the same constructor parameter (the writer / reader table of C02.R1 run
+    here - a cast of the mapping names to the rows' fixed-width dtype truncates a name that only the hold-out carries, on the second save)"""
+    from . import C02
+    ctx.borrow(C02.r1, "R9")
+
+
+RULE_FUNCS = [r1, r2, r3, r4, r5, r6, r7, r8, r9]
 
 
 def _drop_kw(fn_name, kw):
@@ -371,6 +380,8 @@ def _rep(a, b):
 
 
 WITNESSES = [
+    ("archive stores the sample-mapping names in the rows' fixed-width dtype", "batchie.data",
+     _rep("                data=np.char.encode(self.sample_mapping[0].astype(str)),\n                compression=\"gzip\",", "                data=np.char.encode(self.sample_mapping[0].astype(self.sample_names.dtype)),\n                compression=\"gzip\","), ["R9"]),
     ("stored sample mapping cast to the rows' dtype", "batchie.data",
      _rep("        self._sample_mapping = (unique_sample_names, unique_sample_ids)", "        self._sample_mapping = (unique_sample_names.astype(sample_names.dtype), unique_sample_ids)"), ["R8"]),
     ("training half smoothed after the split", "batchie.cli.prepare_retrospective_simulation",
